@@ -646,6 +646,9 @@ pub fn fixed_violations() -> Vec<(&'static str, String, usize, Vec<&'static str>
         // a never-assigned register that no ecall writes, read behind an ecall
         ("saved-register-read-in-main-behind-an-ecall", "main:\n    li a0, 1\n    li a7, 1\n    ecall\n    add a0, a0, s5\n    li a7, 1\n    ecall\n    li a7, 10\n    ecall\n".into(), 4, vec!["invalid-use-before-assignment"], Some("s5")),
         ("thread-pointer-read-in-a-function-behind-an-ecall", "main:\n    li a0, 1\n    jal f\n    li a7, 1\n    ecall\n    li a7, 10\n    ecall\nf:\n    li a7, 5\n    ecall\n    add a0, a0, tp\n    ret\n".into(), 10, vec!["invalid-use-before-assignment"], Some("tp")),
+        // the return address destroyed in front of the instruction that saves it: the frame code
+        // saves and restores the destroyed value faithfully
+        ("ra-overwritten-before-it-is-saved", "main:\n    li a0, 5\n    jal ra, f\n    li a7, 1\n    ecall\n    li a7, 10\n    ecall\nf:\n    addi sp, sp, -4\n    li ra, 0\n    sw ra, 0(sp)\n    jal ra, g\n    lw ra, 0(sp)\n    addi sp, sp, 4\n    ret\ng:\n    addi a0, a0, 1\n    ret\n".into(), 9, vec!["overwrite-callee-saved-register", "lost-register-value"], Some("ra")),
         // a stretch of unreachable straight-line code: every instruction of it, also behind an ecall
         ("last-of-a-dead-stretch-behind-the-exit", "main:\n    li a0, 1\n    jal f\n    li a7, 10\n    ecall\n    addi t3, t3, 1\n    addi t3, t3, 2\n    addi t3, t3, 3\nf:\n    addi a0, a0, 1\n    ret\n".into(), 7, vec!["unreachable-code"], None),
         ("dead-stretch-with-an-ecall-in-it", "main:\n    li a0, 1\n    jal f\n    li a7, 10\n    ecall\nf:\n    addi a0, a0, 1\n    j f_end\n    li a7, 11\n    ecall\n    addi t3, t3, 1\n    addi t3, t3, 2\nf_end:\n    ret\n".into(), 11, vec!["unreachable-code"], None),
